@@ -24,6 +24,10 @@ class Unknown(Exception):
     pass
 
 
+VARIANT_INDEX = {("core::option::Option", "None"): 0, ("core::option::Option", "Some"): 1,
+                 ("core::result::Result", "Ok"): 0, ("core::result::Result", "Err"): 1}
+
+
 def api_of(path):
     m = re.match(r"^griddle::(?:map|set)::(\w+)::<.*?>::(\w+)(?:::<.*>)?$", path)
     if m:
@@ -76,6 +80,8 @@ class SymExec:
             return ("ite", v[1], self.project(v[2], i, e), self.project(v[3], i, e))
         if v[0] == "downcast":
             # (x as Some).0  -> payload of x
+            if v[1][0] == "struct" and i < len(v[1][3]):
+                return v[1][3][i]
             return ("payload", v[1], v[2], i)
         if v[0] == "set":
             return v      # a field of the collection (its map / its table) stands for the collection's contents
@@ -121,8 +127,16 @@ class SymExec:
         self.steps += 1
         if self.steps > self.max_steps:
             return ("unknown", "budget")
+        if (body.path, bb) in getattr(self, "_active_heads", ()):
+            return ("continue",)
         if bb in trail:
             return ("unknown", "loop")
+        if bb not in getattr(self, "_no_summary", ()):
+            heads = self._loop_heads(body)
+            if bb in heads:
+                r = self.loop_summary(body, bb, heads[bb], env, depth)
+                if r is not None:
+                    return r
         trail = trail + (bb,)
         env = dict(env)
         for st in body.stmts(bb):
@@ -165,6 +179,12 @@ class SymExec:
                 f = self.block(body, t["targets"][0][1], env, depth, trail)
                 tr = self.block(body, t["otherwise"], env, depth, trail)
                 return ("ite", cond, tr, f)
+            if cond[0] == "discr" and cond[1][0] == "struct" and (cond[1][1], cond[1][2]) in VARIANT_INDEX:
+                want = VARIANT_INDEX[(cond[1][1], cond[1][2])]
+                for v, tb in t["targets"]:
+                    if v == want:
+                        return self.block(body, tb, env, depth, trail)
+                return self.block(body, t["otherwise"], env, depth, trail)
             if cond[0] == "discr":
                 # option-like: build ite on "is variant v"
                 res = self.block(body, t["otherwise"], env, depth, trail)
@@ -177,6 +197,81 @@ class SymExec:
         if k == "unreachable":
             return ("diverge",)
         return ("unknown", "terminator " + k)
+
+    # -- loops: `for x in it { if c(x) { return K1 } } K2`  ==>  if any(it, c) { K1 } else { K2 } ---------------------------------------
+    def _loop_heads(self, body):
+        cache = self.__dict__.setdefault("_heads", {})
+        if body.path not in cache:
+            cache[body.path] = {h: bl for h, bl in body.loops()}
+        return cache[body.path]
+
+    def loop_summary(self, body, head, blocks, env, depth):
+        """Summarise a search loop over an iterator: every iteration either returns one fixed value or continues; when the iterator
+        is exhausted the loop is left.  Returns the value of the function from the loop head onward, or None if the loop has another shape."""
+        nexts = [c for c in self.ctx.calls(body) if c.loc.bb in blocks and c.method == "next" and not body.is_cleanup(c.loc.bb) and c.dest is not None
+                 and not c.dest["proj"]]
+        if len(nexts) != 1 or nexts[0].target is None:
+            return None
+        N_ = nexts[0]
+        # straight line from the head to the poll
+        env1 = dict(env)
+        x = head
+        hops = 0
+        while True:
+            for st in body.stmts(x):
+                if st["k"] == "assign":
+                    if st["place"]["proj"]:
+                        env1[st["place"]["local"]] = ("unknown", "partial write")
+                    else:
+                        env1[st["place"]["local"]] = self.rvalue(body, env1, st["rv"])
+            if x == N_.loc.bb:
+                break
+            t = body.term(x)
+            if t["k"] != "goto" or hops > 6:
+                return None
+            x = t["target"]
+            hops += 1
+        it = self.operand(body, env1, N_.args[0])
+        if it[0] == "unknown":
+            return None
+        self.fresh = getattr(self, "fresh", 0) + 1
+        vid = self.fresh
+        d = N_.dest["local"]
+        active = self.__dict__.setdefault("_active_heads", set())
+        nosum = self.__dict__.setdefault("_no_summary", set())
+        active.add((body.path, head))
+        try:
+            env_s = dict(env1)
+            env_s[d] = ("struct", "core::option::Option", "Some", [("elem", vid)])
+            r_some = self.block(body, N_.target, env_s, depth, ())
+            env_n = dict(env1)
+            env_n[d] = ("struct", "core::option::Option", "None", [])
+            r_none = self.block(body, N_.target, env_n, depth, ())
+        finally:
+            active.discard((body.path, head))
+
+        leaves = []
+
+        def collect(v):
+            if v[0] == "ite":
+                collect(v[2]); collect(v[3])
+            else:
+                leaves.append(v)
+        collect(r_some)
+        rets = [l for l in leaves if l != ("continue",) and l != ("diverge",)]
+        if ("continue",) not in leaves or not rets or any(r != rets[0] for r in rets) or rets[0][0] == "unknown":
+            return None
+
+        def contains_continue(v):
+            return v == ("continue",) or (isinstance(v, tuple) and any(isinstance(x_, tuple) and contains_continue(x_) for x_ in v))
+        if contains_continue(r_none):
+            return None
+
+        def cond_of(v):
+            if v[0] == "ite":
+                return ("ite", v[1], cond_of(v[2]), cond_of(v[3]))
+            return ("const", 0) if v in (("continue",), ("diverge",)) else ("const", 1)
+        return ("ite", ("any", it, ("lam", vid, cond_of(r_some))), rets[0], r_none)
 
     def call(self, body, env, c, depth):
         args = [self.operand(body, env, a) for a in c.args]
